@@ -217,15 +217,16 @@ def affix (isSuffix : Bool) (n : Nat) (frame : List Name) (p : Parent) (deps : L
   if setEq columns frame then none
   else some { childs := [some (.many (frame.filter (columns.contains ·)))], keep := true }
 
+/-- one operand of `Binop._simplify_up`: projected unless it is not a frame or already has exactly these columns -/
+def binopSide (columns : List Name) : Option (List Name) → Option Sel
+  | some lc => if lc = columns then none else some (.many columns)
+  | none => none
+
 /-- `Binop._simplify_up`; `left/right` = columns of the operand when it is a frame expression (ndim > 1) -/
 def binop (selfCols : List Name) (left right : Option (List Name)) (p : Parent) (deps : List Dep) : Option Rw :=
   let columns := selfCols.filter ((detProj p deps []).toList.contains ·)
-  let side : Option (List Name) → Option Sel := fun o => match o with
-    | some lc => if lc = columns then none else some (.many columns)
-    | none => none
-  let l := side left
-  let r := side right
-  if l.isNone && r.isNone then none else some { childs := [l, r], keep := true }
+  if (binopSide columns left).isNone && (binopSide columns right).isNone then none
+  else some { childs := [binopSide columns left, binopSide columns right], keep := true }
 
 /-- `AsType._simplify_up`; `dkeys` = keys of a dict `dtypes` (none: one dtype for everything) -/
 def astype (frame : List Name) (dkeys : Option (List Name)) (p : Parent) (deps : List Dep) : Option Rw :=
@@ -371,18 +372,20 @@ def concatCols (axis1 inner : Bool) : List (List Name) → List Name
     else if inner then f.filter (fun c => fs.all (·.contains c))
     else (f :: fs).flatten.foldl (fun acc c => if acc.contains c then acc else acc ++ [c]) []
 
-/-- `Concat._simplify_up`; a frame that keeps no column is dropped from the new Concat: `some (.many [])` -/
+/-- what `Concat._simplify_up` does to one input with columns `f`: dropped from the new Concat when it keeps no column
+    (`some (.many [])`), left alone when it keeps all (`none`), projected otherwise -/
+def concatChild (columns : List Name) (f : List Name) : Option Sel :=
+  let cf := f.filter (columns.contains ·)
+  if cf.isEmpty then some (.many []) else if sortKeep cf = sortKeep f then none else some (.many cf)
+
+/-- `Concat._simplify_up` -/
 def concat (axis1 inner : Bool) (frames : List (List Name)) (p : Parent) (deps : List Dep) : Option Rw :=
   let columns := (detProj p deps []).toList
-  let cf := frames.map (fun f => f.filter (columns.contains ·))
-  let same : List Name × List Name → Bool := fun fc => decide (sortKeep fc.2 = sortKeep fc.1)
-  if (frames.zip cf).all same then none
+  if frames.all (fun f => decide (sortKeep (f.filter (columns.contains ·)) = sortKeep f)) then none
   else
-    let childs := (frames.zip cf).map (fun fc =>
-      if fc.2.isEmpty then some (Sel.many []) else if same fc then none else some (Sel.many fc.2))
-    let newFrames := cf.filter (fun c => !c.isEmpty)
+    let newFrames := (frames.map (fun f => f.filter (columns.contains ·))).filter (fun c => !c.isEmpty)
     let keep := !(decide (concatCols axis1 inner newFrames = p.operand.toList) && !p.ndim1)
-    some { childs := childs, keep := keep }
+    some { childs := frames.map (concatChild columns), keep := keep }
 
 /-! ### Column semantics (what the rules must preserve)
 
@@ -463,5 +466,50 @@ structure ConcatOp (γ : Type) where
   op : List (Frame γ) → Frame γ
   C : List (Option γ) → Option γ
   op_val : ∀ Fs c, (op Fs).val c = C (Fs.map (fun F => if F.cols.contains c then F.val c else none))
+
+/-- reset_index: data columns pass through unchanged; without `drop` the former index becomes a new first column
+    whose label depends on the labels present -/
+structure ResetOp (γ : Type) where
+  op : Bool → Frame γ → Frame γ
+  idx : Option γ
+  label : List Name → Name
+  op_cols : ∀ d F, (op d F).cols = if d then F.cols else label F.cols :: F.cols
+  op_val : ∀ d F c, F.cols.contains c = true → (op d F).val c = F.val c
+  op_idx : ∀ F, F.cols.contains (label F.cols) = false → (op false F).val (label F.cols) = idx
+
+/-- the label pandas gives to the former index -/
+def resetLabel (indexName : Option Name) (l : List Name) : Name :=
+  match indexName with
+  | some n => n
+  | none => if l.contains "index" then "level_0" else "index"
+
+/-- a source with a `columns` operand (FromPandas, FromMapProjectable, readers): reads exactly those columns -/
+structure SourceOp (γ : Type) where
+  read : List Name → Frame γ
+  data : Name → Option γ
+  read_cols : ∀ cs, (read cs).cols = cs
+  read_val : ∀ cs c, cs.contains c = true → (read cs).val c = data c
+
+/-- is column `c` cast by `astype(dtypes)`? (`none`: one dtype for every column) -/
+def castFlag (dk : Option (List Name)) (c : Name) : Bool :=
+  match dk with
+  | none => true
+  | some l => l.contains c
+
+/-- astype with a dict of dtypes (none: one dtype for every column): a cast per column; pandas refuses a dict key
+    that is not a column of the input -/
+structure AsTypeOp (γ : Type) where
+  op : Option (List Name) → Frame γ → Frame γ
+  cast : Bool → Name → Option γ → Option γ
+  op_cols : ∀ dk F, (op dk F).cols = F.cols
+  op_val : ∀ dk F c, F.cols.contains c = true →
+    (op dk F).val c = cast (castFlag dk c) c (F.val c)
+  cast_false : ∀ c x, cast false c x = x
+
+/-- drop(columns=…) -/
+structure DropOp (γ : Type) where
+  op : List Name → Frame γ → Frame γ
+  op_cols : ∀ cs F, (op cs F).cols = F.cols.filter (fun c => !cs.contains c)
+  op_val : ∀ cs F c, F.cols.contains c = true → cs.contains c = false → (op cs F).val c = F.val c
 
 end Dx.Cols
